@@ -283,6 +283,8 @@ class Equiv:
         for rw in self.rewrites:
             t = rewrite(t, rw)
         t = rewrite(t, canon_bodies)
+        if self.run is not None:
+            t = rewrite(t, canon_repo_calls(self.run))      # defaults exposed by the simplifications above
         return t
 
     def leaf_eq(self, a, b):
@@ -959,6 +961,9 @@ def small_rewrites(t):
         if head(x) == "sub" and strip(x[2]) == ("slice", NONE, NONE, const(-1)):
             return ("attr", x[1], t[2])
         return t
+    if h == "bin" and t[1] == "@":
+        # a @ b on count vectors is numpy.dot(a, b)
+        return small_rewrites(("call", ("glob", "numpy.dot"), (t[2], t[3]), ()))
     if h == "bin" and t[1] == "+":
         if is_const(t[3], ""):
             return t[2]
@@ -985,6 +990,11 @@ def small_rewrites(t):
             return ("ite", b[1], small_rewrites(("item", b[2], t[2])), small_rewrites(("item", b[3], t[2])))
         if head(b) == "tuple" and isinstance(t[2], int) and t[2] < len(b[1]):
             return b[1][t[2]]
+        # unpacking map over a literal tuple:  a, b = map(f, (A, B))
+        if head(b) == "call" and strip(b[1]) == ("glob", "builtins.map") and len(b[2]) == 2 and not b[3] and isinstance(t[2], int):
+            it = strip(b[2][1])
+            if head(it) in ("tuple", "list") and t[2] < len(it[1]):
+                return small_rewrites(("call", b[2][0], (it[1][t[2]],), ()))
         # unpacking a comprehension over a literal tuple:  a, b = (f(x) for x in (A, B))
         if head(b) == "comp" and len(b[3]) == 1 and not b[3][0][1] and isinstance(t[2], int):
             elem = b[3][0][0]
